@@ -138,8 +138,8 @@ Definition slice {A} (l : list A) (len start stop : Z) : list A :=
 (* LIMIT offset count over a result list (a negative offset selects nothing, a negative count everything) *)
 Definition limit {A} (offset count : Z) (l : list A) : list A :=
   if offset <? 0 then []
-  else let r := skipn (Z.to_nat offset) l in
-       if count <? 0 then r else firstn (Z.to_nat count) r.
+  else let r := skipn (Z.to_nat (Z.min offset (lenZ l))) l in          (* clamped: no number larger than the list becomes a nat *)
+       if count <? 0 then r else firstn (Z.to_nat (Z.min count (lenZ l))) r.
 
 Definition in_score_range (mn mx : fl) (minex maxex : bool) (x : fl) : bool :=
   (if minex then fl_lt mn x else fl_le mn x) && (if maxex then fl_lt x mx else fl_le x mx).
@@ -275,8 +275,9 @@ Definition dprim (d : db) (c : hcall) : db * hresult :=
     match aget d k with
     | Some (VList l) =>
       if n <? 1 then (d, r_nil)
-      else let got := firstn (Z.to_nat n) l in
-           (put_or_del d k (VList (skipn (Z.to_nat n) l)),
+      else let m := Z.to_nat (Z.min n (lenZ l)) in                        (* clamped before it becomes a nat *)
+           let got := firstn m l in
+           (put_or_del d k (VList (skipn m l)),
             if n =? 1 then match got with x :: _ => r_bulk x | [] => r_nil end else r_arr got)
     | Some _ => (d, wrongtype)
     | None => (d, r_nil)
@@ -285,8 +286,9 @@ Definition dprim (d : db) (c : hcall) : db * hresult :=
     match aget d k with
     | Some (VList l) =>
       if n <? 1 then (d, r_nil)
-      else let got := firstn (Z.to_nat n) (rev l) in
-           (put_or_del d k (VList (rev (skipn (Z.to_nat n) (rev l)))),
+      else let m := Z.to_nat (Z.min n (lenZ l)) in
+           let got := firstn m (rev l) in
+           (put_or_del d k (VList (rev (skipn m (rev l)))),
             if n =? 1 then match got with x :: _ => r_bulk x | [] => r_nil end else r_arr got)
     | Some _ => (d, wrongtype)
     | None => (d, r_nil)
